@@ -920,3 +920,152 @@ package weshnet
 //@   loop 1 invariant forall i {cidsMeta[i]} :: 0 <= i && i < len(headsMetadata) ==> bytes(cidsMeta[i]) == headsMetadata[i].str
 //@   loop 1 invariant len(cidsMessages) == len(headsMessages) && fresh(cidsMessages) && cidsMessages.base != cidsMeta.base && -1 <= rangeindex && (rangeindex < len(headsMessages) || len(headsMessages) == 0 && rangeindex == -1)
 //@   loop 1 invariant forall i {cidsMessages[i]} :: 0 <= i && i <= rangeindex ==> bytes(cidsMessages[i]) == headsMessages[i].str
+
+//@ # ---- export: one group = the entries of its metadata log, the entries of its message log, then its heads file
+//@ # holding the heads of the metadata log as metadata heads and those of the message log as message heads
+//@ spec func rawHeads(l Ref) Ref
+//@ extern (berty.tech/go-ipfs-log.Log).RawHeads(l) (om)
+//@   ensures om == rawHeads(l) && om != nil
+//@ extern (berty.tech/go-ipfs-log/iface.IPFSLogOrderedEntries).Len(om) (n)
+//@   ensures n == omlen(om)
+//@ alias MDH = rawHeads(oplog(addr(caller_gc.metadataStore.BaseStore)))
+//@ alias MSH = rawHeads(oplog(addr(caller_gc.messageStore.BaseStore)))
+//@ alias LMD = rawHeads(oplog(addr(gc.metadataStore.BaseStore)))
+//@ alias LMS = rawHeads(oplog(addr(gc.messageStore.BaseStore)))
+//@ func (*service).exportGroupContext
+//@   for C20
+//@   safety
+//@   requires s != nil && s.ipfsCoreAPI != nil && gc != nil && gc.metadataStore != nil && gc.messageStore != nil && gc.group != nil && tw != nil
+//@   modifies tarN(tw), tarName(tw), tarSize(tw), tarData(tw), headsWritten(tw)
+//@   at (*service).exportOrbitDBGroupHeads requires [C20.export.heads-of-stores] gc == caller_gc
+//@        && len(headsMetadata) == omlen($MDH) && (forall i {headsMetadata[i]} :: 0 <= i && i < len(headsMetadata) ==> headsMetadata[i].str == ehash(omat($MDH, i)))
+//@        && len(headsMessages) == omlen($MSH) && (forall i {headsMessages[i]} :: 0 <= i && i < len(headsMessages) ==> headsMessages[i].str == ehash(omat($MSH, i)))
+//@   ensures [C20.export.group] result == nil ==> tarN(tw) == old(tarN(tw)) + entryKeyN(entriesOf(oplogOf(gc.metadataStore))) + entryKeyN(entriesOf(oplogOf(gc.messageStore))) + 1
+//@   ensures [C20.export.group.frame] tarKeeps(tw) && tarN(tw) >= old(tarN(tw))
+//@   loop 0 invariant len(cidsMeta) == omlen($LMD) && fresh(cidsMeta) && -1 <= rangeindex && (rangeindex < len(cidsMeta) || len(cidsMeta) == 0 && rangeindex == -1)
+//@   loop 0 invariant forall i {cidsMeta[i]} :: 0 <= i && i <= rangeindex ==> cidsMeta[i].str == ehash(omat($LMD, i))
+//@   loop 0 invariant tarN(tw) == old(tarN(tw)) + entryKeyN(entriesOf(oplogOf(gc.metadataStore))) + entryKeyN(entriesOf(oplogOf(gc.messageStore))) && tarKeeps(tw)
+//@   loop 1 invariant len(cidsMeta) == omlen($LMD) && fresh(cidsMeta)
+//@   loop 1 invariant forall i {cidsMeta[i]} :: 0 <= i && i < len(cidsMeta) ==> cidsMeta[i].str == ehash(omat($LMD, i))
+//@   loop 1 invariant len(cidsMessages) == omlen($LMS) && fresh(cidsMessages) && cidsMessages.base != cidsMeta.base && -1 <= rangeindex && (rangeindex < len(cidsMessages) || len(cidsMessages) == 0 && rangeindex == -1)
+//@   loop 1 invariant forall i {cidsMessages[i]} :: 0 <= i && i <= rangeindex ==> cidsMessages[i].str == ehash(omat($LMS, i))
+//@   loop 1 invariant tarN(tw) == old(tarN(tw)) + entryKeyN(entriesOf(oplogOf(gc.metadataStore))) + entryKeyN(entriesOf(oplogOf(gc.messageStore))) && tarKeeps(tw)
+
+//@ # ---- export and restore agree on the name of an entry: the name written for the identifier c (text form cidstr(c), the key
+//@ # go-ipfs-log uses in its entry map) is an entry name whose suffix parses back to c; with C20.export.entry and
+//@ # C20.entry.restored/rejected: the block exported under c is stored under c by the restore iff its bytes hash to c
+//@ lemma C20.entry.roundtrip: forall c Bytes :: c != bempty ==>
+//@      isEntryName(bcat("entries/", cidstr(c))) && cidparse_s(bslice(bcat("entries/", cidstr(c)), 8, blen(bcat("entries/", cidstr(c))))) == c
+//@   for C20
+
+//@ # ======================= C08: the message pipeline (park / release / deliver) =======================
+//@ # Sequential and lock-discipline ingredients of "every decryptable message is delivered, none stays parked";
+//@ # how they compose over schedules is argued in /verif/DESIGN.md (C08), not machine-checked.
+//@ # ckknown(s)[pk]: whether secret store s holds a chain key for the device with key bytes pk (of this store's group)
+//@ ghost ckknown(Ref) (Array Bytes Bool)
+//@ extern (berty.tech/weshnet/v2/pkg/secretstore.SecretStore).IsChainKeyKnownForDevice(s, ctx, g, dev) (r)
+//@   ensures r == ckknown(s)[pkv(dev)]
+//@ # keySeen(m): the value of hasKnownChainKey as last read under muDeviceCaches by the message loop of store m
+//@ ghost keySeen(Ref) Bool
+//@ # parkedU(m): messages parked because their chain key was unknown
+//@ ghost parkedU(Ref) Int
+//@ pred gcacheOK(d) = d != nil && pqinv(d.queue) && unlocked(addr(d.queue.muMessages))
+
+//@ func (*MessageStore).addToDeviceCache
+//@   for C08
+//@   safety
+//@   requires m != nil && gcacheOK(device) && unlocked(addr(m.muDeviceCaches))
+//@   modifies lockstate(addr(m.muDeviceCaches)), hbag(device.queue), hsize(device.queue), device.queue.items, lockstate(addr(device.queue.muMessages)), keySeen(m), parkedU(m), padds
+//@   ghostset keySeen(m) := device.hasKnownChainKey
+//@   ghostset parkedU(m) := ite(device.hasKnownChainKey, old(parkedU(m)), old(parkedU(m)) + 1)
+//@   at (*PriorityQueue[T]).Add requires [C08.park.under-lock] locked(addr(caller_m.muDeviceCaches)) && !caller_device.hasKnownChainKey
+//@   ensures [C08.park.iff-unknown] (result <==> !device.hasKnownChainKey) && device.hasKnownChainKey == old(device.hasKnownChainKey)
+//@   ensures [C08.park.queued] result ==> hsize(device.queue) == old(hsize(device.queue)) + 1 && hbag(device.queue) == store(old(hbag(device.queue)), message, old(hbag(device.queue))[message] + 1) && padds == old(padds) + 1
+//@   ensures [C08.park.untouched] !result ==> hsize(device.queue) == old(hsize(device.queue)) && hbag(device.queue) == old(hbag(device.queue)) && padds == old(padds)
+//@   ensures [C08.park.seen] keySeen(m) == device.hasKnownChainKey && parkedU(m) == old(parkedU(m)) + ite(result, 1, 0)
+//@   ensures [C08.park.unlock] unlocked(addr(m.muDeviceCaches)) && gcacheOK(device)
+
+//@ # droppedU(m): messages dropped because the sender key in their headers is not a valid key
+//@ ghost droppedU(Ref) Int
+//@ pred msOK(m) = m != nil && m.deviceCaches != nil && m.secretStore != nil && m.logger != nil && m.groupPublicKey != nil
+//@      && m.messagesQueue != nil && m.messagesQueue.list != nil && m.messagesQueue.metrics != nil
+//@      && (forall k Bytes {has(m.deviceCaches, k)} :: has(m.deviceCaches, k) ==> gcacheOK(m.deviceCaches[k]))
+//@ alias DK = bytes(message.headers.DevicePk)
+//@ func newPriorityMessageQueue
+//@   for C08
+//@   requires tracer != nil
+//@   ensures [C08.cache.new-queue] fresh(result) && pqinv(result) && hsize(result) == 0 && unlocked(addr(result.muMessages))
+//@ func (*MessageStore).getOrCreateDeviceCache
+//@   for C08
+//@   safety
+//@   requires msOK(m) && unlocked(addr(m.muDeviceCaches)) && message != nil && message.headers != nil && tracer != nil
+//@   modifies lockstate(addr(m.muDeviceCaches)), mapof(m.deviceCaches), keySeen(m), droppedU(m)
+//@   ghostset keySeen(m) := device.hasKnownChainKey
+//@   ghostset droppedU(m) := ite(device == nil, old(droppedU(m)) + 1, old(droppedU(m)))
+//@   ensures [C08.lookup.flag] ret0 != nil ==> ret1 == ret0.hasKnownChainKey && keySeen(m) == ret1 && has(m.deviceCaches, $DK) && m.deviceCaches[$DK] == ret0 && gcacheOK(ret0)
+//@   ensures [C08.lookup.existing] old(has(m.deviceCaches, $DK)) ==> ret0 == old(m.deviceCaches[$DK]) && ret0.hasKnownChainKey == old(ret0.hasKnownChainKey) && hsize(ret0.queue) == old(hsize(ret0.queue))
+//@   ensures [C08.lookup.created] !old(has(m.deviceCaches, $DK)) && ret0 != nil ==> fresh(ret0) && ret0.hasKnownChainKey == ckknown(m.secretStore)[$DK] && hsize(ret0.queue) == 0
+//@   ensures [C08.lookup.dropped] (ret0 == nil ==> !ret1 && droppedU(m) == old(droppedU(m)) + 1) && (ret0 != nil ==> droppedU(m) == old(droppedU(m)))
+//@   ensures [C08.lookup.others] forall k Bytes {has(m.deviceCaches, k)} :: k != $DK ==> has(m.deviceCaches, k) == old(has(m.deviceCaches, k)) && m.deviceCaches[k] == old(m.deviceCaches[k])
+//@   ensures [C08.lookup.unlock] unlocked(addr(m.muDeviceCaches)) && msOK(m)
+
+//@ # release: every message of the device queue is handed back to the processing queue, in counter order
+//@ # (the callback appends its argument and never fails; NextAll calls it once per item and stops only on an error: C15.prio.nextall.*)
+//@ func (*MessageStore).processDeviceMessagesInQueue$1
+//@   for C08
+//@   safety
+//@   requires m != nil && deref(m) != nil && deref(m).messagesQueue != nil && deref(m).messagesQueue.list != nil && deref(m).messagesQueue.metrics != nil && unlocked(addr(deref(m).messagesQueue.mu))
+//@   modifies lseq(deref(m).messagesQueue.list), llen(deref(m).messagesQueue.list), lockstate(addr(deref(m).messagesQueue.mu)), sends(deref(m).messagesQueue.signal)
+//@   ensures [C08.release.append] result == nil && llen(deref(m).messagesQueue.list) == old(llen(deref(m).messagesQueue.list)) + 1
+//@        && lseq(deref(m).messagesQueue.list) == store(old(lseq(deref(m).messagesQueue.list)), old(llen(deref(m).messagesQueue.list)), next)
+//@   ensures [C08.release.wakeup] sends(deref(m).messagesQueue.signal) == old(sends(deref(m).messagesQueue.signal)) + 1
+//@ func (*MessageStore).processDeviceMessagesInQueue
+//@   for C08
+//@   safety
+//@   requires m != nil && gcacheOK(device)
+//@   modifies hbag(device.queue), hsize(device.queue), device.queue.items, lockstate(addr(device.queue.muMessages)), ptrace, pcalls, pcberrs
+//@   modifies lseq(m.messagesQueue.list), llen(m.messagesQueue.list), lockstate(addr(m.messagesQueue.mu)), sends(m.messagesQueue.signal)
+//@   ensures [C08.release.all] hsize(device.queue) == 0 || pcberrs > old(pcberrs)
+//@   ensures [C08.release.unlock] gcacheOK(device)
+
+//@ # registration: under the lock, the flag follows the secret store and, once the key is known, the whole device queue is released
+//@ alias RD = m.deviceCaches[bytes(devicePK)]
+//@ func (*MessageStore).ProcessMessageQueueForDevicePK
+//@   for C08
+//@   safety
+//@   requires msOK(m) && unlocked(addr(m.muDeviceCaches))
+//@   modifies lockstate(addr(m.muDeviceCaches)), $RD.hasKnownChainKey
+//@   modifies hbag($RD.queue), hsize($RD.queue), $RD.queue.items, lockstate(addr($RD.queue.muMessages)), ptrace, pcalls, pcberrs
+//@   modifies lseq(m.messagesQueue.list), llen(m.messagesQueue.list), lockstate(addr(m.messagesQueue.mu)), sends(m.messagesQueue.signal)
+//@   ensures [C08.register.flag] old(has(m.deviceCaches, bytes(devicePK))) && len(devicePK) == 32 ==> $RD.hasKnownChainKey == ckknown(m.secretStore)[bytes(devicePK)]
+//@   ensures [C08.register.release-all] old(has(m.deviceCaches, bytes(devicePK))) && len(devicePK) == 32 && ckknown(m.secretStore)[bytes(devicePK)] ==> hsize($RD.queue) == 0 || pcberrs > old(pcberrs)
+//@   ensures [C08.register.unlock] unlocked(addr(m.muDeviceCaches)) && msOK(m)
+
+//@ # one processing attempt: pmok(m)/pmfail(m) count the successes and failures; a success carries the headers of the
+//@ # item and the plaintext the secret store opened (lastOpened(s): the message last opened by secret store s)
+//@ ghost pmok(Ref) Int
+//@ ghost pmfail(Ref) Int
+//@ ghost lastOpened(Ref) Ref
+//@ extern (berty.tech/weshnet/v2/pkg/secretstore.SecretStore).OpenEnvelopePayload(s, ctx, env, headers, g, dev, id) (msg, err)
+//@   modifies lastOpened(s)
+//@   ensures err == nil ==> msg != nil && lastOpened(s) == msg
+//@ extern (berty.tech/weshnet/v2/pkg/secretstore.SecretStore).UpdateOutOfStoreGroupReferences(s, ctx, dev, counter, g) (err)
+//@   noeffect
+//@ extern berty.tech/weshnet/v2.newEventContext(eventID, parentIDs, g) (c)
+//@   noeffect
+//@   ensures c != nil && fresh(c)
+//@ extern (berty.tech/go-ipfs-log.Entry).GetNext(e) (n)
+//@   noeffect
+//@ extern (berty.tech/go-ipfs-log.Entry).GetHash(e) (c)
+//@   ensures c.str == ehash(e)
+//@ func (*MessageStore).processMessage
+//@   for C08
+//@   safety
+//@   requires m != nil && m.secretStore != nil && m.logger != nil && message != nil && message.op != nil && message.headers != nil && m.group != nil
+//@   modifies pmok(m), pmfail(m), lastOpened(m.secretStore)
+//@   ghostset pmok(m) := ite(ret1 == nil, old(pmok(m)) + 1, old(pmok(m)))
+//@   ghostset pmfail(m) := ite(ret1 == nil, old(pmfail(m)), old(pmfail(m)) + 1)
+//@   ensures [C08.process.counted] (ret1 == nil ==> pmok(m) == old(pmok(m)) + 1 && pmfail(m) == old(pmfail(m))) && (ret1 != nil ==> pmfail(m) == old(pmfail(m)) + 1 && pmok(m) == old(pmok(m)))
+//@   ensures [C08.process.event] ret1 == nil ==> ret0 != nil && fresh(ret0) && ret0.Headers == message.headers
+//@        && ret0.Message == as(lastOpened(m.secretStore), "*berty.tech/weshnet/v2/pkg/protocoltypes.EncryptedMessage").Plaintext
+//@   ensures [C08.process.error] ret1 != nil ==> ret0 == nil
